@@ -212,3 +212,12 @@ def o8_h10(ctx):
 
 
 RULES.append(o8_h10)
+
+
+@rule("O9", doc="a new e-node gets the full pass whenever it is created (C14.A4): whether a parent's symmetry is known must not depend on whether the parent was inserted before or after its child became symmetric")
+def o9_a4(ctx):
+    from . import c14
+    c14.a4(ctx)
+
+
+RULES.append(o9_a4)
